@@ -140,7 +140,9 @@ impl NetcodeServer {
             connect_key,
             max_clients: config.max_clients,
             challenge_sequence: 0,
-            global_sequence: 0,
+            // Handshake packets (challenge, denied) are sealed with the same key as the packets of the session that follows:
+            // number them in the upper half of the sequence space so they never share a nonce with session packets (as in netcode.io).
+            global_sequence: 1 << 63,
             challenge_key,
             public_addresses: config.public_addresses,
             current_time: config.current_time,
